@@ -285,4 +285,43 @@ def chainAuthWithToken (token : Str) (address : Str) : Except ChainErr AuthResul
     | .error _ => .error .panic
     | .ok r => .ok r
 
+/-! ## connectclient.Make on ONE shared Config, several addresses (strengthening S4C)
+
+`Make(cfg, address, factory)` has two steps that matter here: it APPENDS the authorization
+interceptor built for `address` to the configured interceptors, and the stub factory then COPIES
+the chain into the client.  As coded the append works on `slices.Clone(cfg.interceptors)` — a
+private slice per call.  Seed C19-m5 made `WithInterceptors` keep one slice with spare capacity
+and `Make` append onto it: every call writes the same spare slot.  `MStep` are the two steps of
+the `i`-th call; a schedule is any interleaving of the calls' steps. -/
+
+inductive MStep where
+  | append (i : Nat)   -- Make #i: interceptors = append(…, authInterceptor(address i))
+  | build (i : Nat)    -- Make #i: factory(…, WithInterceptors(interceptors...)) copies the chain
+  deriving DecidableEq, Repr
+
+structure MState where
+  slot : Option Str                -- shared variant: the address whose interceptor sits in the spare slot
+  own : List (Nat × Str)           -- cloning variant: the private slice of call i ends in auth(address)
+  built : List (Nat × Option Str)  -- client i was built with the authorization interceptor of this address
+  deriving DecidableEq, Repr
+
+def MState.init : MState := ⟨none, [], []⟩
+
+def lookupOwn (own : List (Nat × Str)) (i : Nat) : Option Str :=
+  match own.find? (fun p => p.1 = i) with
+  | some p => some p.2
+  | none => none
+
+def mstep (shared : Bool) (addr : Nat → Str) (s : MState) : MStep → MState
+  | .append i => if shared then { s with slot := some (addr i) } else { s with own := (i, addr i) :: s.own }
+  | .build i => { s with built := (i, if shared then s.slot else lookupOwn s.own i) :: s.built }
+
+def mrun (shared : Bool) (addr : Nat → Str) (steps : List MStep) : MState :=
+  steps.foldl (mstep shared addr) MState.init
+
+/-- The Authorization decision of a request sent by a client that was built with the
+    authorization interceptor of address `a`: a function of the configuration and `a` ONLY. -/
+def clientAuth (bufToken : Str) (file : Option (List Str)) (a : Str) : Except ChainErr AuthResult :=
+  chainAuth bufToken file a
+
 end BufModel.Token
